@@ -88,8 +88,8 @@ PyObject* py_dt(PyObject* self, PyObject* args) {
     npy_intp max_size = 0;
     void* const data = PyArray_DATA(f);
 
-    if (ndims != 2) {
-        PyErr_SetString(PyExc_RuntimeError, "_distance only implemented for 2-d arrays.");
+    if (ndims < 1 || ndims > NPY_MAXDIMS) {
+        PyErr_SetString(PyExc_RuntimeError, "_distance only implemented for arrays of at least 1 dimension.");
         goto exit;
     }
     try {
@@ -105,18 +105,33 @@ PyObject* py_dt(PyObject* self, PyObject* args) {
         for (int k = 0; k != ndims; ++k) {
             const int n = PyArray_DIM(f, k);
             const int outer_n = size/n;
+            // idx enumerates all the lines along axis k (all the other coordinates)
+            npy_intp idx[NPY_MAXDIMS];
+            for (int d = 0; d != ndims; ++d) idx[d] = 0;
             for (int start = 0; start != outer_n; ++start) {
-                int* orig_start = (orig_i ? orig_i + start * ostrides[1-k]/sizeof(int) : 0);
+                npy_intp byte_offset = 0;
+                npy_intp obyte_offset = 0;
+                for (int d = 0; d != ndims; ++d) {
+                    if (d == k) continue;
+                    byte_offset += idx[d] * strides[d];
+                    if (orig_i) obyte_offset += idx[d] * ostrides[d];
+                }
+                int* orig_start = (orig_i ? orig_i + obyte_offset/sizeof(int) : 0);
                 int ostride = (orig_i ? ostrides[k]/sizeof(int) : 0);
                 switch(PyArray_TYPE(f)) {
 #define HANDLE(type) { \
                         type* typed_data = static_cast<type*>(data); \
-                        const int offset = start*strides[1-k]/sizeof(type); \
+                        const npy_intp offset = byte_offset/sizeof(type); \
                         dist_transform<type>(static_cast<type*>(Df), typed_data + offset, n, strides[k]/sizeof(type), z, v, orig_start, ot, ostride); \
                     }
 
                     HANDLE_FLOAT_TYPES();
 #undef HANDLE
+                }
+                for (int d = ndims - 1; d >= 0; --d) {
+                    if (d == k) continue;
+                    if (++idx[d] < PyArray_DIM(f, d)) break;
+                    idx[d] = 0;
                 }
             }
         }
